@@ -7,7 +7,7 @@ LEVEL = 'exploration'
 TECHNIQUE = 'runtime oracle monitor: real is_irreducible / next_irreducible / find_irreducible / GF(poly) against brute-force factor search over all monic polynomials of lower degree'
 RULE = ('case = (p, polynomial as integer, function); all polynomials of bounded degree over p in {2,3,5,7}; '
         'non-trivial = degree >= 2; distinct by (p, function, polynomial)')
-EXHAUSTIVE = 'all polynomials of degree <= 7 (p=2), <= 4 (p=3), <= 3 (p=5,7) [thorough: 9/5/4/3]; every one as is_irreducible, next_irreducible and GF modulus argument'
+EXHAUSTIVE = 'all polynomials of degree <= 7 (p=2), <= 4 (p=3), <= 3 (p=5,7) [thorough: 13 (p=2), 8 (p=3), 5 (p=5), 4 (p=7), 3 (p=11,13)]; every one as is_irreducible, next_irreducible and GF modulus argument'
 ASSUMPTIONS = ['oracle: brute-force trial division by all monic polynomials of degree <= deg/2 (vlib/oracles/ref.py)',
                'next_irreducible ranges over monic polynomials, as its docstring states']
 REQUIRE = {'any': {'is_irreducible_checked': 800, 'next_irreducible_checked': 800, 'gf_modulus_checked': 300, 'find_irreducible_checked': 8}}
@@ -16,7 +16,7 @@ LEVEL_NOTE = 'trusted: vlib/oracles/ref.py brute-force factor search'
 
 
 def shards(tier, seed):
-    deg = {2: 7, 3: 4, 5: 3, 7: 3} if tier == 'quick' else {2: 10, 3: 6, 5: 4, 7: 3, 11: 2, 13: 2}
+    deg = {2: 7, 3: 4, 5: 3, 7: 3} if tier == 'quick' else {2: 13, 3: 8, 5: 5, 7: 4, 11: 3, 13: 3}
     return [{'name': f'p{p}', 'p': p, 'deg': d} for p, d in deg.items()]
 
 
